@@ -25,7 +25,7 @@ type c01 struct{}
 func (c01) ID() string    { return "C01" }
 func (c01) Level() string { return "exploration" }
 func (c01) Rule() string {
-	return "(a) every attribute path of the schema (read from /repo/schema/compose-spec.json at run time) x 17 YAML node kinds (incl. two lists repeating their keys) placed at that path, as a single file, as a second document, as an override of the valid witness, as the base under a valid override, in an extended base, in an included file, and against the full corpus document as override / overridden / extending / extended / including / included; every pair of kinds as (base, override) at the same path; the single-file matrix through loader.LoadModelWithContext, cli LoadProject and cli LoadModel; the tags !reset / !override on 6 node shapes at every path and at the document root (single file, override of the full document, second document); (b) the single-file matrix under each of 10 load options flipped alone and all together (thorough: more option sets); (b') every pair of valid service attribute values of the three full corpus documents (whole, and cut down to each single child / grandchild of a mapping) on one service; (c) YAML alias/anchor cycles and merge keys, extends, include (every spelling of every edge incl. multi-path entries) and depends_on cycles; (d) every {present, absent, directory-in-place} state vector of the files referenced by 5 scenarios (override, extends chain, nested include with env files, env_file/label_file, cli .env); (e) every distance-1 byte edit (delete, insert/replace by 18 significant bytes) of 6 seed documents. Oracle: exactly one of project/error, no panic, no process death, no hang; cycles and missing required files are errors naming the file. distinct = distinct (position, kind, route, options) outcomes"
+	return "(a) every attribute path of the schema (read from /repo/schema/compose-spec.json at run time) x 17 YAML node kinds (incl. two lists repeating their keys) placed at that path, as a single file, as a second document, as an override of the valid witness, as the base under a valid override, in an extended base, in an included file, and against the full corpus document as override / overridden / extending / extended / including / included; every pair of kinds as (base, override) at the same path; the single-file matrix through loader.LoadModelWithContext, cli LoadProject and cli LoadModel; the tags !reset / !override on 6 node shapes at every path and at the document root (single file, override of the full document, second document); (b) the single-file matrix under each of 10 load options flipped alone and all together (thorough: more option sets); (b') every pair of valid service attribute values of the three full corpus documents (whole, and cut down to each single child / grandchild of a mapping) on one service; (c) YAML alias/anchor cycles and merge keys, extends, include (every spelling of every edge incl. multi-path entries) and depends_on cycles; (d) every {present, absent, directory-in-place} state vector of the files referenced by 5 scenarios, through the loader and through the cli entry point (override, extends chain, nested include with env files, env_file/label_file, cli .env); (e) every distance-1 byte edit (delete, insert/replace by 18 significant bytes) of 6 seed documents. Oracle: exactly one of project/error, no panic, no process death, no hang; cycles and missing required files are errors naming the file. distinct = distinct (position, kind, route, options) outcomes"
 }
 func (c01) Assumptions() []string {
 	return []string{
@@ -755,9 +755,16 @@ func c01files(c *core.Ctx) {
 		for range names {
 			tot *= 3
 		}
-		for code := 0; code < tot; code++ {
-			fs, code := fs, code
+		for code := 0; code < tot*2; code++ {
+			fs, code, viaCli := fs, code%tot, code >= tot
+			if viaCli && fs.opts != nil {
+				continue
+			}
 			id := fmt.Sprintf("files/%s/%d", fs.name, code)
+			if viaCli {
+				// the same file states through the cli entry point (it reads the top-level files itself)
+				id += "/cli"
+			}
 			c.Do(id, func() core.Outcome {
 				state := map[string]int{}
 				x := code
@@ -778,11 +785,33 @@ func c01files(c *core.Ctx) {
 				files["sub/.keep"] = ""
 				s := &Scn{Files: files, Main: fs.main, Opts: fs.opts}
 				root := s.Materialise()
-				p, err := s.LoadAt(root)
+				loadAt := s.LoadAt
+				if viaCli {
+					loadAt = func(root string) (p *types.Project, err error) {
+						var paths []string
+						for _, m := range fs.main {
+							paths = append(paths, filepath.Join(root, m))
+						}
+						perr := core.Try(func() error {
+							po, e := cli.NewProjectOptions(paths, cli.WithWorkingDirectory(root), cli.WithName("proj"))
+							if e != nil {
+								err = e
+								return nil
+							}
+							p, err = po.LoadProject(context.Background())
+							return nil
+						})
+						if perr != nil {
+							return nil, perr
+						}
+						return p, err
+					}
+				}
+				p, err := loadAt(root)
 				// services are visited in map order: the outcome class must be the same under every rotation
 				for k := uintptr(1); k < 8; k++ {
 					mapctl.SetUniform(k)
-					p2, err2 := s.LoadAt(root)
+					p2, err2 := loadAt(root)
 					mapctl.SetUniform(0)
 					if (err2 == nil) != (err == nil) {
 						os.RemoveAll(root)
